@@ -285,8 +285,11 @@ def moveToOneOf (g : Grid) (a : Aid) (ps : List Coord) (sel : Selection) (he : H
 
 /-! ### reads -/
 
-/-- `grid.agents` / `for entry in grid` flattened: columns x = 0.., then y = 0.. -/
-def agentsList (g : Grid) : List Aid := g.allCells.flatMap g.content
+/-- `AgentSet(agents)`: a dict keyed by agent keeps the first occurrence of each, in order -/
+def dedup (l : List Aid) : List Aid := l.foldl (fun acc x => if x ∈ acc then acc else acc ++ [x]) []
+
+/-- `grid.agents`: the cells flattened (columns x = 0.., then y = 0..) into an `AgentSet` -/
+def agentsList (g : Grid) : List Aid := dedup (g.allCells.flatMap g.content)
 
 /-- `grid[x, y]` -/
 def getItem (g : Grid) (p : Coord) : Except Err (List Aid) :=
